@@ -140,6 +140,12 @@ def cel_src(e) -> str:
         return f"flatten({cel_src(e[1])})"
     if k == "U":
         return f"[{e[1]}({', '.join(cel_src(a) for a in e[2])}), {cel_src(e[3])}][1]"
+    if k == "SA":
+        return "steps"
+    if k == "SZ":
+        return "size(steps)"
+    if k == "SI":
+        return f"{json.dumps(e[1])} in steps"
     raise ValueError(k)
 
 
@@ -208,6 +214,12 @@ def py_eval(e, env):
         for a in e[2]:
             py_eval(a, env)
         return py_eval(e[3], env)
+    if k in ("SA", "SZ", "SI"):
+        # `steps` as a whole: exactly the referenced steps' values; unbound when the step references nothing
+        st = env.get("steps") or {}
+        if not st:
+            raise EvalError("steps is not bound")
+        return copy.deepcopy(st) if k == "SA" else (len(st) if k == "SZ" else (e[1] in st))
     raise ValueError(k)
 
 
@@ -431,6 +443,8 @@ class Recorder:
         self.trace = []          # {"path": [[label, idx]...], "tgt": [kind, name], "inputs": value}
         self.outcomes = {}       # path tuple -> [[label, canon_out, canon_rids]...]
         self.results = {}        # path tuple -> canon_result of the (nested) reconcile_workflow
+        self.messages = {}       # path (json) -> {label: [message, location]} of the non-Ok outcomes (prose: only
+                                 # ever compared between two runs of the SAME workflow)
         self.events = []         # top-level completion order: ["step", label] | ["item", label, idx]
         self.raised = []
 
@@ -478,6 +492,9 @@ class Recorder:
         async def steps_shim(**kw):
             out = await o_steps(**kw)
             rec.outcomes[PATH.get()] = [[k, canon_out(v.result), canon_rids(v.resource_ids)] for k, v in out[0].items()]
+            rec.messages[json.dumps([list(p) for p in PATH.get()])] = {
+                k: [getattr(v.result, "message", None), getattr(v.result, "location", None)] for k, v in out[0].items()
+                if hasattr(v.result, "message")}
             return out
 
         async def wf_shim(**kw):
@@ -527,6 +544,10 @@ def run(sc, lat=None, virtual=True):
                 res = await entry(api=cluster, workflow_key=WORKFLOW_KEY, owner=copy.deepcopy(OWNER),
                                   trigger=celpy.json_to_cel(copy.deepcopy(sc["trigger"])), workflow=real.main)
                 top = canon_result(res)
+                rec.messages["<result>"] = {
+                    "conditions": [[c.get("type"), c.get("message"), c.get("location")] for c in res.conditions],
+                    "overall": [getattr(res.result, "message", None), getattr(res.result, "location", None)],
+                    "state_errors": dict(res.state_errors)}
             except Exception as e:        # noqa: BLE001 - the class is the observation
                 top = {"raised": type(e).__name__, "msg": str(e)[:300]}
         finally:
@@ -542,6 +563,7 @@ def run(sc, lat=None, virtual=True):
                 "nested_results": {json.dumps([list(p) for p in k]): v for k, v in rec.results.items() if k != ()},
                 "trace": rec.trace,
                 "events": rec.events,
+                "messages": rec.messages,
                 "calls": calls,
                 "prepared": prepared_info(real),
                 "prepared_subs": {n: prepared_info(real, n) for n in real.subs},
@@ -742,6 +764,12 @@ def c_expr(e):
         return f"(EFlatten {c_expr(e[1])})"
     if k == "U":
         return f"(EUse {clist(e[2], c_expr)} {c_expr(e[3])})"
+    if k == "SA":
+        return "EStepsAll"
+    if k == "SZ":
+        return "EStepsSize"
+    if k == "SI":
+        return f"(EStepsIn {cstr(e[1])})"
     raise ValueError(k)
 
 
@@ -1102,6 +1130,10 @@ class Gen:
             put(rng.choice(KEYS), C(rand_const(rng)))
         if rng.random() < 0.15:
             put("lol", C([[rand_scalar(rng) for _ in range(rng.choice([1, 2]))] for _ in range(rng.choice([1, 2, 3]))]))
+        if rng.random() < 0.12 and self.steps:
+            # the `steps` map as a whole: must hold exactly the referenced steps
+            put("seen", rng.choice([["SA"], ["SZ"], ["SI", rng.choice(self.steps)["label"]],
+                                    ["M", [["all", ["SA"]], ["n", ["SZ"]]]]]))
         if rng.random() < 0.03 * self.err:
             put(rng.choice(KEYS), ["E"])
         if rng.random() < 0.08:
